@@ -29,7 +29,7 @@ func init() {
 		d := &Def{
 			Prop: prop, Name: "service", Level: "exploration",
 			Build:        func(tier string) sim.Scenario { return buildSvcFan(tier, prop) },
-			Cfg:          sim.RunConfig{Grace: 2 * time.Minute, Horizon: 2 * time.Hour, StepCap: 1500000},
+			Cfg:          sim.RunConfig{Grace: 2 * time.Minute, Horizon: 2 * time.Hour, StepCap: 1500000, NoStall: true},
 			RunsQuick:    3000,
 			RunsThorough: 100000,
 			Real: []string{"service/rtsp sessions: tcpPushStream, tcpConsumer (TCP and WebSocket), udpConsumer, multicastConsumer + multicastProxy", "service/wsp control + data channel", "service/flv HTTP and WebSocket consumers + av/format/flv muxer/writer",
@@ -50,6 +50,7 @@ func init() {
 			d.Rule = "one run = 1 publisher (real RTSP/TCP record session or harness stream), 2-5 consumers over {rtsp-tcp, rtsp-udp, rtsp-multicast, ws-rtsp, wsp, http-flv, ws-flv} joining after tape-chosen delays, some leaving early, 30-90 packets (video/audio/RTCP, 20..20000 bytes); " +
 				"each RTP client's frames per channel map to strictly increasing published indices with byte-identical payloads, and every packet published after its PLAY answer arrives (to the end, or to its departure); FLV clients: valid FLV whose NAL/AAC payloads are published units in order, at most once. " +
 				"distinct = decision-sequence hash; non-trivial = at least one pre-emption"
+			d.Assumptions = append(d.Assumptions, "simulated time passes only when no task is runnable in these families (no tape-chosen stalls): their rules speak about what was published after a client's answer plus one millisecond and about a publisher keeping a 5 ms cadence, which a stall in the middle of an operation would blur")
 			d.RequiredProbes = []string{"fan.kind.tcp", "fan.kind.udp", "fan.kind.ws", "fan.kind.wsp", "fan.kind.flv", "fan.kind.wsflv", "fan.kind.mcast", "fan.real-pusher", "fan.left-early", "fan.complete-run-checked", "fan.wsp-pause-resume", "fan.flv-complete-run-checked", "fan.player-own-channel-numbers"}
 		} else {
 			d.Rule = "same scenario, plus RTSP/TCP and HTTP-FLV clients that stop reading for good (2 KiB window: the server's delivery goroutine blocks in a write); the stream ends by {publisher disconnect, publisher connection reset inside a frame, publisher TEARDOWN, replacement by a new publisher, DELETE /api/v1/streams, Unregist, server shutdown} while consumers are attached, attaching or leaving; " +
